@@ -476,6 +476,56 @@ pub fn spaces(tier: Tier) -> Vec<Space<'static>> {
     sp.push(Space::new("key-order objects (byte order != length order != case order)", ko.len() as u64, move |i, acc| check_doc(&ko[i as usize], acc, false)));
     let sk = refmodel::gen::strkey_docs();
     sp.push(Space::new("special-character keys (every key and pair of keys from SSTR)", sk.len() as u64, move |i, acc| check_doc(&sk[i as usize], acc, false)));
+    // key paths as the key-path parser delivers them: every token string it accepts, on a document set
+    {
+        let toks = crate::checks::c16::TOKENS;
+        let nt = toks.len() as u64;
+        let l: u32 = if tier.thorough() { 6 } else { 5 };
+        let total: u64 = (0..=l).map(|k| nt.pow(k)).sum();
+        let docs: std::sync::Arc<Vec<(RVal, Vec<u8>)>> = std::sync::Arc::new(
+            [
+                RVal::obj(vec![("a", RVal::arr(vec![RVal::u(1), RVal::obj(vec![("1", RVal::u(2)), ("a", RVal::s("x"))])])), ("1", RVal::s("one")), ("-1", RVal::Null), ("é", RVal::arr(vec![RVal::s("e")])), ("u", RVal::f(1.5)), ("", RVal::Bool(true)), ("a1", RVal::u(300))]),
+                RVal::arr(vec![RVal::arr(vec![RVal::u(0), RVal::u(1)]), RVal::obj(vec![("a", RVal::obj(vec![("a", RVal::u(1))]))]), RVal::s("a")]),
+                RVal::arr(vec![RVal::u(7)]),
+                RVal::obj(vec![("1", RVal::arr(vec![RVal::Null, RVal::obj(vec![("-1", RVal::s("deep"))])]))]),
+                RVal::s("a"),
+                RVal::arr(vec![]),
+            ]
+            .into_iter()
+            .map(|x| { let b = enc(&x); (x, b) })
+            .collect(),
+        );
+        sp.push(Space::new("token-soup key paths: every token string the key-path parser accepts, applied as parsed x 6 documents", total.div_ceil(256), move |blk, acc| {
+            for idx in (blk * 256)..((blk + 1) * 256).min(total) {
+                let mut i = idx;
+                let mut len = 0;
+                let mut c = 1;
+                while i >= c {
+                    i -= c;
+                    c *= nt;
+                    len += 1;
+                }
+                let mut text: Vec<u8> = vec![];
+                for _ in 0..len {
+                    text.extend_from_slice(toks[(i % nt) as usize]);
+                    i /= nt;
+                }
+                let Ok(Ok(kp)) = guard(|| jsonb::keypath::parse_key_paths(&text)) else { continue };
+                let model: Vec<KP> = kp.paths.iter().map(crate::checks::c16::from_impl).collect();
+                if model.iter().any(|k| matches!(k, KP::Name(s) | KP::QuotedName(s) if s.starts_with("ILL-FORMED-UTF8["))) {
+                    continue;
+                }
+                acc.nontrivial += 1;
+                for (v, b) in docs.iter() {
+                    acc.eval();
+                    match guard(|| jsonb::get_by_keypath(b, kp.paths.iter())) {
+                        Ok(r) => sub_ok("get_by_keypath(parsed)", &r, &ops::get_by_keypath(v, &model), acc, &|| json!({"keypath_text": String::from_utf8_lossy(&text), "parsed": format!("{:?}", model), "doc": format!("{:?}", v)})),
+                        Err(p) => acc.vio(&format!("get_by_keypath(parsed):{}", panic_class(&p)), || json!({"keypath_text": String::from_utf8_lossy(&text), "doc": format!("{:?}", v)})),
+                    }
+                }
+            }
+        }));
+    }
     let co = case_objects();
     sp.push(Space::new("case-variant-objects", co.len() as u64, move |i, acc| check_doc(&co[i as usize], acc, false)));
     // casts on every scalar of SW + B64 + SSTR
